@@ -72,6 +72,12 @@ func checkC08Sandwich(c *c08TextCase) error {
 	switch {
 	case serr == nil && berr != nil:
 		return fmt.Errorf("BuildExpr(%q) rejected a syntactically valid XPath 1.0 expression: %v", c.Text, firstLine(berr.Error()))
+	case berr == nil && lerr != nil && strings.Contains(c.Text, "\\") && strings.ContainsAny(c.Text, "'\"") && excluded("C08-backslash-in-double-quoted-literal"):
+		// the generated lexer reads backslash escapes inside literals (known
+		// findings C08-backslash-..., C08-literal-ending-in-backslash): where a
+		// literal ends is then ambiguous in ways the recogniser does not enumerate
+		st.KnownHit("C08-backslash-in-double-quoted-literal")
+		return nil
 	case berr == nil && lerr != nil:
 		return fmt.Errorf("BuildExpr(%q) accepted a string that is not an XPath 1.0 expression (%v)", c.Text, lerr)
 	case berr == nil && g.BSR == nil:
